@@ -12,7 +12,7 @@ reg("C04",
     "the generic folding path keeps every node that consumes a graph input; with the graph-input guard in _get_numpy_value no partial "
     "evaluator can read the default of an initializer-input and the soundness theorem of the pass holds for every binding of the graph "
     "inputs (every override value); without the guard the faithful model inlines an If on the default of an overridable condition "
-    "(refutation witness, replayed on the real code); the same pair of statements for _clear_unused_initializers. Which of the two worlds "
+    "(refutation witness, replayed on the real code); the same pair of statements for _clear_unused_initializers. The models of onnx_ir's dead-node removal and common-subexpression elimination (shared with C03) keep the graph's inputs and outputs and never drop an initializer that is a graph input or output (theorems); a lost output type is attributed to the pass of the real pipeline that drops it. Which of the two worlds "
     "the current source is in is read by the translator on every run.",
     "Coq kernel; totality and validity are observed on generated models, not proved; wf_graphb of the result is evaluated per run "
     "(translation validation), not derived from wf_graphb of the input; hand-written model tied by translator + decision-trace correspondence; "
